@@ -23,7 +23,7 @@ empty string is `-`.
   frag-fmt (p <term>+)         → s:<hex>   model of format_program on the fragment (Core/Text/Fragment)
   frag-print <width> (p <term>+) → s:<hex>   print (programDoc terms) width
   frag-parse <hex-source>      → ok (pp (p <term>+)*) <hex-rest> | err <offset-from-end> <code> | out   (programP)
-      <term> ::= (l <hex-name>) | (c <term> <term>+) | (s <hex-string-value>) | (i <decimal>) | (b <hex-bytes | ->) | (t <hex-tuple-name | _> <field>*)    <field> ::= (u <term>) | (n <hex-label> <term>)
+      <term> ::= (l <hex-name>) | (a <hex-name> ((f <hex-field>) | (x <index>))+) | (c <term> <term>+) | (s <hex-string-value>) | (i <decimal>) | (b <hex-bytes | ->) | (t <hex-tuple-name | _> <field>*)    <field> ::= (u <term>) | (n <hex-label> <term>)
 -/
 open QM QM.Text
 
@@ -129,9 +129,18 @@ def renderOpt : Option (List Char) → String
   | some cs => s!"some {charsToHex cs}"
   | none => "none"
 
+def fragAccOfSx : Sx → Option QM.Frag.Acc
+  | .list [.atom "f", .atom h] => (hexToChars h).map .field
+  | .list [.atom "x", n] => n.asNat.map .index
+  | _ => none
+
 mutual
 partial def fragOfSx : Sx → Option QM.Frag.T
   | .list [.atom "l", .atom h] => (hexToChars h).map .leaf
+  | .list (.atom "a" :: .atom h :: path) =>
+    match hexToChars h, path.mapM fragAccOfSx with
+    | some n, some p => some (.acc n p)
+    | _, _ => none
   | .list (.atom "c" :: t :: more) =>
     match fragOfSx t, more.mapM fragOfSx with
     | some t, some more => some (.chain t more)
@@ -157,6 +166,10 @@ end
 mutual
 partial def fragToSx : QM.Frag.T → String
   | .leaf n => s!"(l {charsToHex n})"
+  | .acc n p =>
+    "(a " ++ charsToHex n ++ String.join (p.map fun
+      | .field f => s!" (f {charsToHex f})"
+      | .index i => s!" (x {i})") ++ ")"
   | .chain t more => "(c " ++ fragToSx t ++ String.join (more.map (fun u => " " ++ fragToSx u)) ++ ")"
   | .str v => s!"(s {charsToHex v})"
   | .int i => s!"(i {i})"
